@@ -18,6 +18,8 @@ pub struct C16;
 ///              the INCLUDE_DIR copy declares a different class)
 ///   variant 4: every include statement is written twice
 ///   variant 5: f0's includes are nested inside a block: let / foreach / if / multiclass > foreach
+///   variant 7: no file but the root declares anything by name: the others hold an include of a
+///              missing file, their includes and an anonymous def of the root's class
 ///   variant 6: two directories: odd files live in INCLUDE_DIR, even files next to the root; both
 ///              directories hold their own common.td, which every file includes by the same text
 fn build(n: usize, edges: u64, variant: u64) -> (Vec<(String, String)>, Vec<Vec<usize>>) {
@@ -26,7 +28,11 @@ fn build(n: usize, edges: u64, variant: u64) -> (Vec<(String, String)>, Vec<Vec<
     let last = n - 1;
     for i in 0..n {
         let mut t = String::new();
-        t.push_str(&format!("// file {i}\nclass K{i};\n"));
+        if variant == 7 && i > 0 {
+            t.push_str(&format!("// file {i}\n"));
+        } else {
+            t.push_str(&format!("// file {i}\nclass K{i};\n"));
+        }
         let mut incs = String::new();
         for j in 0..n {
             // a file that lives only in INCLUDE_DIR cannot see the workspace directory: it gets no includes
@@ -48,7 +54,7 @@ fn build(n: usize, edges: u64, variant: u64) -> (Vec<(String, String)>, Vec<Vec<
         if i == 0 && variant == 1 {
             incs.push_str("include \"nowhere.td\"\n");
         }
-        if i > 0 && variant == 1 {
+        if i > 0 && (variant == 1 || variant == 7) {
             // every other file starts its includes with a missing file whose statement has the same
             // extent as the root's first include statement (f9 never exists: at most 8 files)
             incs = format!("include \"f9.td\"\n{incs}");
@@ -64,8 +70,14 @@ fn build(n: usize, edges: u64, variant: u64) -> (Vec<(String, String)>, Vec<Vec<
         } else {
             t.push_str(&incs);
         }
-        for &j in &adj[i] {
-            t.push_str(&format!("def d{i}_{j} : K{j};\n"));
+        if variant == 7 {
+            if i > 0 {
+                t.push_str("def : K0;\n");
+            }
+        } else {
+            for &j in &adj[i] {
+                t.push_str(&format!("def d{i}_{j} : K{j};\n"));
+            }
         }
         if variant == 6 {
             t.push_str(&format!("include \"common.td\"\ndef c{i} : Common{};\n", if i % 2 == 1 { "Inc" } else { "Ws" }));
@@ -181,6 +193,11 @@ fn check(n: usize, edges: u64, variant: u64) -> Verdict {
             }) {
                 return fail("C16.missing-include-diagnostic", format!("file {i}: no diagnostic on the include of a missing file at {p}..{z}; got {:?}", ds.iter().map(|d| (r2(d.location.range), d.message.clone())).collect::<Vec<_>>()));
             }
+            // … reported once, however many paths lead to the file
+            let count = ds.iter().filter(|d| r2(d.location.range).0 >= *p && r2(d.location.range).0 < z).count();
+            if count != 1 {
+                return fail("C16.single-indexing", format!("file {i}: {count} diagnostics on the include of a missing file at {p}..{z}"));
+            }
         }
         let others: Vec<String> = ds
             .iter()
@@ -197,9 +214,13 @@ fn check(n: usize, edges: u64, variant: u64) -> Verdict {
             *names.entry(s.name.to_string()).or_default() += 1;
         }
         let mut want_names: BTreeMap<String, usize> = BTreeMap::new();
-        want_names.insert(class_name(i), 1);
-        for j in &adj[i] {
-            want_names.insert(format!("d{i}_{j}"), 1);
+        if variant != 7 || i == 0 {
+            want_names.insert(class_name(i), 1);
+        }
+        if variant != 7 {
+            for j in &adj[i] {
+                want_names.insert(format!("d{i}_{j}"), 1);
+            }
         }
         if variant == 6 {
             want_names.insert(format!("c{i}"), 1);
@@ -212,6 +233,21 @@ fn check(n: usize, edges: u64, variant: u64) -> Verdict {
             return fail("C16.single-indexing", format!("file {i}: outline {names:?}, expected {want_names:?}"));
         }
         // (5) references of the class declared here = its uses in every reachable includer
+        if variant == 7 {
+            if i == 0 {
+                // the root's class is used once by every other reachable file, whatever number of paths leads there
+                let decl = text.find("class K0").unwrap() + "class ".len();
+                let refs = a.references(pos(fid, decl)).unwrap_or_default();
+                let mut got_refs: Vec<(String, usize)> = refs.iter().map(|r| (ws.fs.path_of(r.file).unwrap_or_default(), r2(r.range).0)).collect();
+                got_refs.sort();
+                let mut want_refs: Vec<(String, usize)> = reach.iter().filter(|&&k| k > 0).map(|&k| (path_of(k), files[k].1.find("def : K0;").unwrap() + "def : ".len())).collect();
+                want_refs.sort();
+                if got_refs != want_refs {
+                    return fail("C16.references", format!("class K0: references {got_refs:?}, expected {want_refs:?}"));
+                }
+            }
+            continue;
+        }
         let decl = text.find(&format!("class K{i}")).unwrap() + "class ".len();
         let refs = a.references(pos(fid, decl)).unwrap_or_default();
         let mut got_refs: Vec<(String, usize)> = refs.iter().map(|r| (ws.fs.path_of(r.file).unwrap_or_default(), r2(r.range).0)).collect();
@@ -262,7 +298,7 @@ impl Property for C16 {
         true
     }
     fn rule(&self) -> String {
-        "exhaustive: every edge set (self-loops included) over <=3 files (thorough: <=4, all 65536) x 7 variants {plain, +missing includes (at the end of the root; first in every other file, with the same extent as the root's first include), last file only in INCLUDE_DIR, last file in both directory and INCLUDE_DIR, every include written twice, root's includes nested in a block (let / foreach / if / a foreach inside a multiclass, by graph), two directories that each hold their own common.td included everywhere by the same text}; quick adds 3000 sampled 4-file graphs; thorough adds random graphs over 5..8 files. Each file = class K<i>; its include statements; one def per included file using that file's class. Oracle: set_root_file + index terminate (traversal budget), keys(diagnostics()) = reference reachable set, document links = one per resolvable include statement on its string literal with the reference target, a diagnostic on each unresolvable include and none elsewhere, each declaration once in its file's outline, references(K<j>) = its uses in every reachable includer. distinct = digest; non-trivial = the graph has a cycle or a diamond, or the variant is not plain".into()
+        "exhaustive: every edge set (self-loops included) over <=3 files (thorough: <=4, all 65536) x 8 variants {plain, +missing includes (at the end of the root; first in every other file, with the same extent as the root's first include), last file only in INCLUDE_DIR, last file in both directory and INCLUDE_DIR, every include written twice, root's includes nested in a block (let / foreach / if / a foreach inside a multiclass, by graph), two directories that each hold their own common.td included everywhere by the same text, no file but the root declaring anything by name (the others hold a missing include, their includes and an anonymous def of the root's class: every diagnostic and every reference exactly once however many paths lead to a file)}; quick adds 3000 sampled 4-file graphs; thorough adds random graphs over 5..8 files. Each file = class K<i>; its include statements; one def per included file using that file's class. Oracle: set_root_file + index terminate (traversal budget), keys(diagnostics()) = reference reachable set, document links = one per resolvable include statement on its string literal with the reference target, a diagnostic on each unresolvable include and none elsewhere, each declaration once in its file's outline, references(K<j>) = its uses in every reachable includer. distinct = digest; non-trivial = the graph has a cycle or a diamond, or the variant is not plain".into()
     }
     fn assumptions(&self) -> Vec<String> {
         vec!["search order from the documentation: directory of the including file, then $INCLUDE_DIR (set once per process to a virtual directory)".into()]
@@ -271,7 +307,7 @@ impl Property for C16 {
         let mut v = Vec::new();
         for n in 1..=3usize {
             v.push(
-                Family::new(&format!("all-graphs-{n}"), 7, move |variant, _r, emit| {
+                Family::new(&format!("all-graphs-{n}"), 8, move |variant, _r, emit| {
                     for e in 0..(1u64 << (n * n)) {
                         if !emit(json!({"kind": "inc", "n": n, "edges": e, "variant": variant})) {
                             return;
@@ -283,7 +319,7 @@ impl Property for C16 {
         }
         if ctx.tier == Tier::Thorough {
             v.push(
-                Family::new("all-graphs-4", 7 * 16, |chunk, _r, emit| {
+                Family::new("all-graphs-4", 8 * 16, |chunk, _r, emit| {
                     let variant = chunk / 16;
                     let hi = chunk % 16;
                     for lo in 0..(1u64 << 12) {
@@ -303,7 +339,7 @@ impl Property for C16 {
                             e |= 1 << b;
                         }
                     }
-                    if !emit(json!({"kind": "inc", "n": n, "edges": e, "variant": rng.below(7)})) {
+                    if !emit(json!({"kind": "inc", "n": n, "edges": e, "variant": rng.below(8)})) {
                         return;
                     }
                 }
@@ -312,7 +348,7 @@ impl Property for C16 {
             v.push(Family::new("sampled-graphs-4", 12, |_c, rng, emit| {
                 for _ in 0..250 {
                     let e = rng.next() & 0xFFFF;
-                    if !emit(json!({"kind": "inc", "n": 4, "edges": e, "variant": rng.below(7)})) {
+                    if !emit(json!({"kind": "inc", "n": 4, "edges": e, "variant": rng.below(8)})) {
                         return;
                     }
                 }
@@ -325,7 +361,7 @@ impl Property for C16 {
             return Verdict::Skip("malformed-case");
         };
         let n = (n as usize).clamp(1, 8);
-        check(n, e & ((1u64 << (n * n).min(63)) - 1) | if n == 8 { e & (1 << 63) } else { 0 }, v % 7)
+        check(n, e & ((1u64 << (n * n).min(63)) - 1) | if n == 8 { e & (1 << 63) } else { 0 }, v % 8)
     }
     fn shrink_keep(&self) -> &'static [&'static str] {
         &["kind", "n", "edges", "variant"]
